@@ -137,6 +137,8 @@ def whole_carts(ctx, rnd):
         pat = (rnd.randrange(256), rnd.randrange(256)) if k else (0, 0)
         if k < n_sparse:
             ov = cartio.sparse_overrides(rnd, 40)
+            if k % 2:
+                ov.update(cartio.repeated_row_overrides(rnd, pat))
         else:
             ov = {a: rnd.randrange(256) for a in range(0x4300)}
         lpat = (rnd.randrange(256), rnd.randrange(256)) if k % 2 else None
